@@ -18,6 +18,7 @@ type Verdict struct {
 	Query    string
 	Count    int // number of path instances merged into this verdict
 	QSize    int
+	Abstract string
 }
 
 type dischargeOpts struct {
@@ -47,6 +48,9 @@ func discharge(obls []*Obligation, opt dischargeOpts) []*Verdict {
 		if o.Goal.IsTrue() && o.Expect == "unsat" {
 			q = "trivial"
 		} else {
+			hy := unitPropagate(o.Hyps)
+			hy = append(hy, congruence(hy, o.Goal)...)
+			o.Hyps = hy
 			q = Query(instantiate(o.Hyps, o.Goal), o.Goal, false)
 		}
 		h := sha1.Sum([]byte(o.Name + "\x00" + q))
@@ -56,6 +60,9 @@ func discharge(obls []*Obligation, opt dischargeOpts) []*Verdict {
 			continue
 		}
 		v := &Verdict{O: o, Query: q, Count: 1, QSize: len(q)}
+		if strings.Contains(q, "(define-fun spec") {
+			v.Abstract = QueryOpt(instantiate(o.Hyps, o.Goal), o.Goal, false, true)
+		}
 		byKey[k] = v
 		order = append(order, v)
 	}
@@ -91,6 +98,15 @@ func solveOne(v *Verdict, opt dischargeOpts) {
 		return
 	}
 	st := time.Now()
+	if v.Abstract != "" && o.Expect == "unsat" {
+		r := runSolvers(v.Abstract, 3, false, "")
+		if r.Status == "unsat" {
+			r.Time = time.Since(st).Seconds()
+			r.Solver += "(spec functions uninterpreted)"
+			v.Result, v.Status = r, "discharged"
+			return
+		}
+	}
 	r := runSolvers(v.Query, opt.timeoutS, opt.all, "")
 	r.Time = time.Since(st).Seconds()
 	v.Result = r
